@@ -117,6 +117,9 @@ type World struct {
 	Opened     []grpctunnel.TunnelChannel
 	Closed     []grpctunnel.TunnelChannel
 
+	// SigExtra is folded into the distinctness signature (inputs not visible in the op log).
+	SigExtra string
+
 	Wire   *WireMonitor
 	Window *WindowMonitor
 	yield  *YieldPlan
